@@ -5,7 +5,7 @@ import subprocess, sys, os
 patch = os.path.abspath(sys.argv[1]); props = sys.argv[2:]
 REPO = "/tmp/repo-seedtest"
 env = dict(os.environ, GOFLAGS="-mod=mod", GOPROXY="off", GOSUMDB="off", GOTOOLCHAIN="local", VERIF_REPO=REPO)
-def sh(cmd): return subprocess.run(cmd, shell=True, capture_output=True, text=True, env=env)
+def sh(cmd): return subprocess.run(cmd, shell=True, capture_output=True, text=True, errors="replace", env=env)
 if not os.path.isdir(REPO): sh("git -C /repo worktree add --detach %s HEAD" % REPO)
 sh("git -C %s checkout -- . && git -C %s clean -fdq" % (REPO, REPO))
 r = sh("git -C %s apply %s" % (REPO, patch))
